@@ -14,7 +14,7 @@ Theorem bystander_raw1 : forall clock cfg ops, wf_pool1 clock cfg ops = true ->
 Proof.
   intros clock cfg ops Hwf. unfold wf_pool1 in Hwf. apply andb_true_iff in Hwf as [Hcfg Hhist].
   unfold bystander_ok.
-  apply (run_B (snd (fst cfg)) ops (pw0 clock [cfg]) (potr0 clock 1) false by0 (Jop_init clock cfg Hcfg) Hhist (BI_init _) (BR_init _ _)).
+  apply (run_B (snd (fst cfg)) (snd cfg) ops (pw0 clock [cfg]) (potr0 clock 1) false by0 (Jop_init clock cfg Hcfg) Hhist (BI_init _) (BR_init _ _)).
 Qed.
 
 (** on the observations as the harness sees them (worker ids renamed by first appearance) *)
